@@ -75,27 +75,9 @@ func checkC17(r *core.Run) {
 	}, 8)
 
 	// ---- UpdatePaymentAddress
+	rulePayGuards(r)
 	acc2 := "did/types.MsgUpdatePaymentAddress.GetAccountId(" + msg + ")"
 	caip := "did/keeper.parseAcccountId(" + acc2 + ")#0"
-	method := "github.com/SaoNetwork/sao-did/parser.Parse(" + msg + ".Did)#0.Method"
-	onChain := []clause{
-		cl("account-is-on-this-chain", guard.Eq(caip+".Chain", "sdk.Context.ChainID()")),
-		cl("account-is-a-cosmos-account", guard.Eq(caip+".Network", "\"cosmos\"")),
-	}
-	evalGuard(r, "G-pay", "did/keeper.msgServer.UpdatePaymentAddress", effSel{AllWrites: true}, onChain, 3)
-	// sid branch: the first SetPaymentAddress (dominated by Method == "sid")
-	sidClauses := []clause{
-		cl("submitter-bound-to-did", guard.Eq(k+"CreatorIsBoundToDid("+msg+".Creator,"+msg+".Did)", "nil")),
-		cl("account-is-bound", guard.True(k+"GetDid("+acc2+")#1")),
-		cl("account-is-bound-to-this-did", guard.Eq(msg+".Did", k+"GetDid("+acc2+")#0.Did")),
-	}
-	keyClauses := []clause{
-		cl("key-did-payment-address-never-changes", guard.False(k+"GetPaymentAddress("+msg+".Did)#1")),
-		cl("only-the-address-itself-sets-it", guard.Eq(caip+".Address", msg+".Creator")),
-		cl("address-has-no-key-did-yet", guard.False(k+"GetKid("+caip+".Address)#1")),
-	}
-	evalGuardBranch(r, "G-pay", "did/keeper.msgServer.UpdatePaymentAddress", guard.Eq(method, "\"sid\""), "sid", sidClauses)
-	evalGuardBranch(r, "G-pay", "did/keeper.msgServer.UpdatePaymentAddress", guard.Eq(method, "\"key\""), "key", keyClauses)
 	// the records are written under the very DID string the guards looked up (msg.Did, or the bound DID proven equal to it)
 	upa := "did/keeper.msgServer.UpdatePaymentAddress"
 	evalStoreVal(r, "T-paykey", upa, "did/types.PaymentAddress.Did", []string{msg + ".Did", k + "GetDid(*)#0.Did"}, "the payment-address record is keyed by the DID string the immutability/ownership guards read (a normalised or otherwise derived key is not covered by them)")
@@ -215,4 +197,32 @@ func scanPatterns(r *core.Run, id string, f *ssa.Function, n *int) {
 			}
 		}
 	}
+}
+
+// rulePayGuards (G-pay): who may become the account that pays for a DID's orders — shared by C17 (registry
+// integrity) and C10 (payers act only for themselves: Store charges GetCosmosPaymentAddress(owner), so an account is
+// charged for a DID's orders exactly when this handler made it that DID's payment address).
+func rulePayGuards(r *core.Run) {
+	k := "did/keeper.Keeper."
+	acc2 := "did/types.MsgUpdatePaymentAddress.GetAccountId(" + msg + ")"
+	caip := "did/keeper.parseAcccountId(" + acc2 + ")#0"
+	method := "github.com/SaoNetwork/sao-did/parser.Parse(" + msg + ".Did)#0.Method"
+	onChain := []clause{
+		cl("account-is-on-this-chain", guard.Eq(caip+".Chain", "sdk.Context.ChainID()")),
+		cl("account-is-a-cosmos-account", guard.Eq(caip+".Network", "\"cosmos\"")),
+	}
+	evalGuard(r, "G-pay", "did/keeper.msgServer.UpdatePaymentAddress", effSel{AllWrites: true}, onChain, 3)
+	// sid branch: the first SetPaymentAddress (dominated by Method == "sid")
+	sidClauses := []clause{
+		cl("submitter-bound-to-did", guard.Eq(k+"CreatorIsBoundToDid("+msg+".Creator,"+msg+".Did)", "nil")),
+		cl("account-is-bound", guard.True(k+"GetDid("+acc2+")#1")),
+		cl("account-is-bound-to-this-did", guard.Eq(msg+".Did", k+"GetDid("+acc2+")#0.Did")),
+	}
+	keyClauses := []clause{
+		cl("key-did-payment-address-never-changes", guard.False(k+"GetPaymentAddress("+msg+".Did)#1")),
+		cl("only-the-address-itself-sets-it", guard.Eq(caip+".Address", msg+".Creator")),
+		cl("address-has-no-key-did-yet", guard.False(k+"GetKid("+caip+".Address)#1")),
+	}
+	evalGuardBranch(r, "G-pay", "did/keeper.msgServer.UpdatePaymentAddress", guard.Eq(method, "\"sid\""), "sid", sidClauses)
+	evalGuardBranch(r, "G-pay", "did/keeper.msgServer.UpdatePaymentAddress", guard.Eq(method, "\"key\""), "key", keyClauses)
 }
